@@ -48,6 +48,8 @@ enum Kind : int {
   K_WITH_QUERY,    // with_query_value(c0, verif_tag, nid)
   K_WITH_ALLOC,    // with_allocator(c0, alloc #a)
   K_VARIANT,       // variant_sender<A,B> chosen at run time by node_arg[nid] (0 -> c0, 1 -> c1) via defer
+  K_LEAF_AI,       // harness leaf whose sender_traits declare blocking == always_inline (always completes inside start())
+  K_LEAF_ND,       // harness leaf whose sender_traits declare sends_done == false (never completes with done)
   K__COUNT
 };
 
@@ -57,7 +59,7 @@ inline const char* kind_name(int k) {
                             "finally", "via", "typed_via", "on", "sequence", "when_all", "when_any", "stop_when", "unstoppable",
                             "materialize|dematerialize", "done_as_optional", "retry_when", "repeat_effect_until", "let_value_with_stop_source",
                             "let_value_with_stop_token", "let_value_with", "any_sender_of", "allocate", "defer", "into_variant",
-                            "with_query_value", "with_allocator", "variant_sender"};
+                            "with_query_value", "with_allocator", "variant_sender", "leaf[always_inline]", "leaf[sends_done=false]"};
   return (k >= 0 && k < K__COUNT) ? n[k] : "?";
 }
 
